@@ -151,6 +151,7 @@ def handle (op : String) (j : Json) : Option Json :=
   | "c18.analyze" => some (analyze j)
   | "c18.rule" => some (analyze j)
   | "c18.server" => some (server j)
+  | "c18.hist" => some (server j)
   | "c18.lower" => some (lowerOp j)
   | _ => none
 
